@@ -164,6 +164,11 @@ def _configs(tier, salts):
                                        "user_params": cfgs.user_params(npt, cfgs.RESTART_MODES[rmode])}
                                 out.append((cfg, {"depth": 0}))
         if salt == 0 or (tier == "thorough" and salt == 1):
+            # declared linear-algebra faults: the Jacobian returned after a failed fit / an error-recovery restart
+            for cfg, plan in cfgs.linalg_fault_cfgs(salt, tier, modes=("none", "soft", "soft_inc", "hard_old", "hard_new", "bounds_scaling_soft",
+                                                                       "npt5_extra_soft", "grow_newdirs_soft", "avg2_soft")):
+                out.append((dict(cfg, tag_restart="la"), plan))
+        if salt == 0 or (tier == "thorough" and salt == 1):
             for name, cfg in cfgs.broad_cfgs(salt=salt, exclude=("reg", "regfast", "sets"), budgets=tuple(range(4, 64, 3 if tier == "quick" else 1)),
                                              overlays=("avg", "soft")):
                 cfg = dict(cfg, tag_restart="broad")
